@@ -55,6 +55,8 @@ def clock_txt(h, mi, style):
         return "{}:{:02d} Uhr".format(h, mi)
     if style == "bare":
         return "{}".format(h)
+    if style == "oclock":
+        return "{} o'clock".format(h)   # hour-only clock time: its minute is unset inside the library
     raise KeyError(style)
 
 
@@ -321,8 +323,23 @@ def _podrange_shard(arg):
     return acc
 
 
+EN_JOINERS = [" - ", "-", " to ", " until ", " til ", " and ", "–"]
+EN_WRAPPERS = [("", ""), ("between ", " and "), ("from ", " to ")]
+
+
 def do_clock(acc, args, origin):
     sh, smi, eh, emi, joiner, wrapper, anchor, style, latent, ref = args[:10]
+    if style == "oclock":
+        # English notation: English joiners and anchors only (a German 'von .. bis' around "9 o'clock" is not a
+        # notation anybody writes; such 8-token mixes only probe the beam, which 5.2 records already)
+        h_ = int.from_bytes(core.jhash((sh, eh, joiner, anchor)), "big")
+        if joiner not in EN_JOINERS:
+            joiner = EN_JOINERS[h_ % len(EN_JOINERS)]
+        if tuple(wrapper) not in EN_WRAPPERS:
+            wrapper = EN_WRAPPERS[h_ % len(EN_WRAPPERS)]
+        if anchor == "weekday-de":
+            anchor = "weekday"
+        args = (sh, smi, eh, emi, joiner, wrapper, anchor, style, latent, ref) + tuple(args[10:])
     anchor_first = args[10] if len(args) > 10 else True
     text, exp, r = check_clock(sh, smi, eh, emi, joiner, wrapper, anchor, style, latent, ref, anchor_first)
     if r == "skip":
@@ -365,11 +382,11 @@ def _clock_full_shard(arg):
     for sh, eh in pairs:
         for smi, emi in MINVAR:
             for anchor in ANCHORS:
-                for style in ("colon", "uhr", "bare"):
+                for style in ("colon", "uhr", "bare", "oclock"):
                     k += 1
                     joiner = CLOCK_JOINERS[k % len(CLOCK_JOINERS)]
                     wrapper = WRAPPERS[(k // 7) % len(WRAPPERS)] if k % 3 == 0 else ("", "")
-                    if style == "bare" and (smi or emi):
+                    if style in ("bare", "oclock") and (smi or emi):
                         continue
                     for latent in ((True, False) if anchor == "none" else (True,)):
                         do_clock(acc, (sh, smi, eh, emi, joiner, wrapper, anchor, style, latent, ANCHOR_REF, True), "all-hour-pairs")
@@ -382,7 +399,7 @@ def _quick_shard(arg):
     hour = st.one_of(st.integers(0, 23), st.sampled_from([0, 11, 12, 13, 23]))
     refs = st.one_of(st.just(ANCHOR_REF), st.datetimes(dt.datetime(2016, 1, 1), dt.datetime(2043, 12, 31)))
     clock = st.tuples(hour, hour, st.sampled_from(MINVAR), st.sampled_from(CLOCK_JOINERS), st.sampled_from(WRAPPERS + [("", "")] * 5),
-                      st.sampled_from(ANCHORS), st.sampled_from(["colon", "colon2", "uhr", "bare"]), st.booleans(), refs, st.booleans())
+                      st.sampled_from(ANCHORS), st.sampled_from(["colon", "colon2", "uhr", "bare", "oclock"]), st.booleans(), refs, st.booleans())
     date = st.dates(dt.date(2019, 1, 1), dt.date(2024, 12, 31))
     dates = st.tuples(date, st.integers(-40, 400), st.sampled_from(["date-date", "dom-date", "doy-date", "date-dom", "named-named"]),
                       st.sampled_from(JOINERS), st.sampled_from(WRAPPERS + [("", "")] * 5), refs)
@@ -391,7 +408,7 @@ def _quick_shard(arg):
         kind, v = c
         if kind == "clock":
             sh, eh, (smi, emi), joiner, wrapper, anchor, style, latent, ref, afirst = v
-            if style == "bare":
+            if style in ("bare", "oclock"):
                 smi = emi = 0
             if anchor != "none":
                 latent = True
@@ -445,6 +462,7 @@ def run(ctx):
         "English 'until/till X' is a joiner only (no before-form in the patterns); resolutions with hour but no minute equal hh:00",
         "dom-date / date-dom / doy-date notations borrow month and year from the fully written end",
         "the anchor is written before the clock range (the rule base has date x interval, not interval x date)",
+        "the \"H o'clock\" notation is combined with English joiners and anchors only",
         "default options, timeout=0"], extra={"exhaustive_subdomains": subs})
 
 
